@@ -85,6 +85,8 @@ _x, _y, _z = E("x", 101), E("y", 102), E("z", 103)
 _p, _q = E("p", 104), E("q", 104)          # same sort key, not convertible (like °C / °F)
 ELEMS = {
     "x": _x, "y": _y, "z": _z, "p": _p, "q": _q,
+    "P": E("P", 104),                      # differs from "p" in case only
+
     "10x": E("10x", 101, [(10, 1), (_x, 1)]),
     "x/4": E("x/4", 101, [(Decimal("0.25"), 1), (_x, 1)]),
     "x/3": E("x/3", 101, [(Fraction(1, 3), 1), (_x, 1)]),
@@ -187,10 +189,25 @@ _num = gen.encode(st.one_of(st.integers(1, 12).map(Fraction), st.integers(-12, -
                             gen.fractions(allow_zero=False)), ("int", "dec", "frac", "decp"))
 
 
+# non-empty spellings of the neutral element: a derived element over its own definition (they only cancel when the
+# term is normalised)
+_NEUTRAL = {
+    "e": [[[["e", "w"], 1], [["e", "x"], -1], [["e", "y"], 2]],
+          [[["e", "v"], 1], [["e", "w"], -1], [["e", "10x"], -1]]],
+    "u": [[[["u", "N"], 1], [["u", "kg"], -1], [["u", "m"], -1], [["u", "s"], 2]],
+          [[["u", "J"], 1], [["u", "N"], -1], [["u", "m"], -1]],
+          [[["u", "W"], 1], [["u", "s"], 1], [["u", "J"], -1]],
+          [[["u", "Ws"], -1], [["u", "J"], 1]]],
+}
+_NEUTRAL["uc"] = _NEUTRAL["u"]
+
+
 @st.composite
 def gen_items(draw, family=None, max_len=8):
     if family is None:
         family = draw(st.sampled_from(["e", "u", "u", "uc"]))
+    if max_len == 8 and draw(st.integers(0, 24)) == 0:
+        return list(draw(st.permutations(draw(st.sampled_from(_NEUTRAL[family]))))), family
     n = gen.pick(draw, (2, st.integers(0, 1)), (5, st.integers(2, 4)), (3, st.integers(min(5, max_len), max_len)))
     items = []
     for _ in range(n):
